@@ -69,6 +69,16 @@ def err_str(e):
             return "ERR:ValueError:coo"
         if "shapes of R and Q" in msg:
             return "ERR:ValueError:shape"
+        if "Q must be 2- or 3-dimensional" in msg:
+            return "ERR:ValueError:qdim"
+        if "R must be 1- or 2-dimensional" in msg:
+            return "ERR:ValueError:rdim"
+        if "dimensions of R and Q" in msg:
+            return "ERR:ValueError:dimension"
+        if "s_indices must be supplied" in msg:
+            return "ERR:ValueError:smissing"
+        if "a_indices must be supplied" in msg:
+            return "ERR:ValueError:amissing"
         if "length of s_indices" in msg:
             return "ERR:ValueError:length"
         return "ERR:ValueError:?:" + msg[:80]
@@ -1413,6 +1423,112 @@ def run(ctx):
 
         # ---- argument forms: the same problem, every argument in a random legal representation
         run_forms(inst, table, acts, base, nt)
+
+
+    # ---------------------------------------------------------------- argument handling: formulation dispatch
+    def run_dispatch():
+        """`__init__` decides from the SHAPES of R, Q (dense 2-D / 3-D or sparse) and the presence / lengths of
+        s_indices, a_indices which formulation it builds, or which ValueError it raises. Mostly well-shaped
+        arguments (all three formulations) plus a malformed stream: one dimension off by one, a dimension
+        dropped / added (0-d, 1-d, 4-d), R and Q of the other formulation, index arrays missing or of the
+        wrong length. Model: `dispatch`; oracle: the documented rule (anything else must be ValueError)."""
+        import scipy.sparse as sp
+
+        def documented(rs, qs, sparse, sl, al):
+            if (sparse or len(qs) == 2) and len(qs) == 2 and list(rs) == [qs[0]] and sl == qs[0] and al == qs[0]:
+                return "sa|L=%d|n=%d|sparse=%d" % (qs[0], qs[1], 1 if sparse else 0)
+            if not sparse and len(qs) == 3 and len(rs) == 2 and list(qs) == [rs[0], rs[1], rs[0]]:
+                return "prod|n=%d|m=%d" % (rs[0], rs[1])
+            return None
+
+        for _ in range(ctx.n(120, 1200)):
+            n, m = rng.randint(1, 4), rng.randint(1, 3)
+            kind = rng.choice(["sa", "sasp", "prod"])
+            if kind == "prod":
+                rs, qs, sparse, sl, al = [n, m], [n, m, n], False, rng.choice([None, None, n * m]), None
+                if sl is not None:
+                    al = sl          # index arrays are ignored in product form
+            else:
+                L = rng.randint(n, n + 3)
+                rs, qs, sparse, sl, al = [L], [L, n], kind == "sasp", L, L
+            mut = rng.choice(["none", "none", "r-off", "q-off", "r-drop", "r-add", "q-drop", "q-add", "swap", "s-none", "a-none",
+                              "both-none", "s-len", "a-len"])
+            if mut == "r-off":
+                i_ = rng.randrange(len(rs))
+                rs[i_] = max(1, rs[i_] + rng.choice([-1, 1]))
+            elif mut == "q-off":
+                i_ = rng.randrange(len(qs))
+                qs[i_] = max(1, qs[i_] + rng.choice([-1, 1]))
+            elif mut == "r-drop":
+                rs = rs[:-1]
+            elif mut == "r-add":
+                rs = rs + [rng.randint(1, 2)]
+            elif mut == "q-drop" and not sparse:
+                qs = qs[:-1]
+            elif mut == "q-add" and not sparse:
+                qs = qs + [rng.randint(1, 2)]
+            elif mut == "swap":
+                if kind == "prod":
+                    rs = [n * m]
+                else:
+                    rs = [rs[0], 1]
+            elif mut == "s-none":
+                sl = None
+            elif mut == "a-none":
+                al = None
+            elif mut == "both-none":
+                sl = al = None
+            elif mut == "s-len" and sl is not None:
+                sl = max(0, sl + rng.choice([-1, 1]))
+            elif mut == "a-len" and al is not None:
+                al = max(0, al + rng.choice([-1, 1]))
+            ctx.count("dispatch:mutation:" + mut)
+            R = np.zeros(tuple(rs))
+            Qd = np.zeros(tuple(qs))
+            if Qd.ndim >= 1:
+                Qd[..., 0] = 1.0
+            Q = sp.csr_matrix(Qd) if sparse else Qd
+            nn = qs[1] if len(qs) >= 2 else 1
+
+            def idx(length, which):
+                if length is None:
+                    return None
+                ss_ = sorted(j % nn for j in range(length))
+                if which == "s":
+                    return ss_
+                out_, seen = [], {}
+                for x_ in ss_:
+                    out_.append(seen.get(x_, 0))
+                    seen[x_] = seen.get(x_, 0) + 1
+                return out_
+            s_arg, a_arg = idx(sl, "s"), idx(al, "a")
+            line = "C09 dispatch r=%s q=%s sparse=%d s=%s a=%s" % (ints(rs), ints(qs), 1 if sparse else 0,
+                                                                    "none" if sl is None else sl, "none" if al is None else al)
+            rep = {"line": line, "R.shape": rs, "Q.shape": qs, "sparse": sparse, "len(s_indices)": sl, "len(a_indices)": al}
+            try:
+                with warnings.catch_warnings():
+                    warnings.simplefilter("ignore")
+                    d_ = DiscreteDP(R, Q, 0.5, s_arg, a_arg)
+                if d_._sa_pair:
+                    got = "sa|L=%d|n=%d|sparse=%d" % (d_.num_sa_pairs, d_.num_states, 1 if d_._sparse else 0)
+                else:
+                    got = "prod|n=%d|m=%d" % (d_.R.shape[0], d_.R.shape[1])
+                    if d_.s_indices is not None or d_.a_indices is not None:
+                        ctx.spec_fail("dispatch_prod_indices", "product form kept s_indices / a_indices", rep)
+            except Exception as e:
+                got = err_str(e)
+            want = documented(rs, qs, sparse, sl, al)
+            # in product form the index arrays are ignored, whatever they are
+            if not sparse and len(qs) == 3 and len(rs) == 2 and list(qs) == [rs[0], rs[1], rs[0]]:
+                want = "prod|n=%d|m=%d" % (rs[0], rs[1])
+            if want is not None and got != want:
+                ctx.spec_fail("dispatch_accept", "well-shaped arguments: expected %s, got %s" % (want, got), rep)
+            if want is None and not got.startswith("ERR:ValueError"):
+                ctx.spec_fail("dispatch_reject", "ill-shaped arguments were not rejected with ValueError: %s" % got, rep)
+            ctx.count("dispatch:" + (got if got.startswith("ERR") else got.split("|")[0]))
+            cases.append(Case(line, got, nontrivial=(mut != "none"), tag="dispatch"))
+
+    run_dispatch()
 
     # ---------------------------------------------------------------- malformed stream
     mal = []   # (inst, description, must_reject)
